@@ -30,6 +30,23 @@ Definition compute_next (last : Z) (c : clock) : Z :=
   | None => wrap64 (last + 1)
   end.
 
+(* The clock-skew warning branch of compute_next (taken when a generator is configured with warnings,
+   the reading is not before the epoch and u_cur <= last):
+     if last - u_cur > cfg.warning_threshold.as_micros() as i64 { ... warn!(...) }
+   `last - u_cur` is i64 arithmetic.  It overflows iff last - u_cur > i64::MAX, which needs a reading
+   that wraps to a negative i64 (>= 2^63 microseconds, beyond the year 294 000).  With overflow checks
+   (debug/test profiles, and the verification harness) that is a panic inside next_timestamp; without
+   them the difference wraps to a negative number, the warning is skipped and the result is unaffected. *)
+Definition warn_sub_overflows (last : Z) (c : clock) : bool :=
+  match c with
+  | Some m => let u_cur := wrap64 m in (u_cur <=? last) && (i64_max <? last - u_cur)
+  | None => false
+  end.
+(* compute_next of a generator WITH a warning configuration, compiled with overflow checks:
+   [None] = arithmetic-overflow panic *)
+Definition compute_next_checked (warnings : bool) (last : Z) (c : clock) : option Z :=
+  if warnings && warn_sub_overflows last c then None else Some (compute_next last c).
+
 (* ---- next_timestamp as a per-thread program ----------------------------------------------
      loop { let last = self.last.load(SeqCst);                  -- Load
             let cur = self.compute_next(last);                  -- Clock c  (one clock reading)
